@@ -17,7 +17,7 @@ import (
 func init() {
 	register(&Prop{
 		ID:          "C10",
-		Explanation: "PARTIAL claim — decides the structural agreements a save/load round trip needs, not the round trip as behaviour: (1) each store encodes and decodes with the same compression flag constant and the same cipher source, the persistence layer saves, loads and clears under the same ticket field, and EncodeSessionState/DecodeSessionState mirror each other (marshal -> [lz4 iff flag] -> Encrypt versus Decrypt -> [lz4 iff flag] -> Unmarshal into the returned object); (2) every field of SessionState other than the two reviewed runtime helpers is serialised under a unique msgpack key; (3) the splitter and the loader derive part names through the same function with consecutive indices from 0, the loader prefers the unsplit cookie and otherwise joins the parts in index order onto a copy of part 0 named like the whole, and the splitter's chunks are consecutive slices cut at one point; (4) because the loader consults names a save of another size does not overwrite, the cookie store's Save reads the presented cookie jar and expires every presented session cookie (quoted name, optional _N suffix) it did not just write; (5) the split threshold constant is at most 4096 and every emitted chunk, and the unsplit cookie, was measured against it with len(cookie.String()); (6) Clear sweeps every presented session cookie and the ticket store's Clear deletes the stored session (shared with C11.R2/R3); (7) the ticket's cookie encoding and its two decoders agree on version tag, part count, part order and base64 alphabet.",
+		Explanation: "PARTIAL claim — decides the structural agreements a save/load round trip needs, not the round trip as behaviour: (1) each store encodes and decodes with the same compression flag constant and the same cipher source, the persistence layer saves, loads and clears under the same ticket field, and EncodeSessionState/DecodeSessionState mirror each other (marshal -> [lz4 iff flag] -> Encrypt versus Decrypt -> [lz4 iff flag] -> Unmarshal into the returned object); (2) every field of SessionState other than the two reviewed runtime helpers is serialised under a unique msgpack key; (3) the splitter and the loader derive part names through the same function with consecutive indices from 0, the loader prefers the unsplit cookie and otherwise joins the parts in index order onto a copy of part 0 named like the whole, and the splitter's chunks are consecutive slices cut at one point; (4) because the loader consults names a save of another size does not overwrite, the cookie store's Save reads the presented cookie jar and expires every presented session cookie (quoted name, optional _N suffix) it did not just write; (5) the split threshold constant is at most 4096 and every emitted chunk, and the unsplit cookie, was measured against it with len(cookie.String()); (6) Clear sweeps every presented session cookie and the ticket store's Clear deletes the stored session (shared with C11.R2/R3); (7) the ticket's cookie encoding and its two decoders agree on version tag, part count, part order and base64 alphabet; (8) the codec's compression plumbing uses no length-limited reader or copy in either direction and hands out compressed bytes only after the writer closed without error.",
 		NotDecided:  "the round trip itself over all sizes and field contents (msgpack/lz4/AES value semantics), byte arithmetic at the split boundary, truncated part names for cookie names longer than 250 bytes, browser jar semantics (path/domain scoping, eviction), Redis behaviour.",
 		Run:         runC10,
 	})
@@ -28,9 +28,10 @@ func runC10(c *Ctx) {
 	r.Rule("R1-codec-agreement", "same compression flag and cipher source on the encode and decode side of each store; same ticket key for save/load/clear; Encode/Decode mirror each other", 11)
 	r.Rule("R2-every-field-serialised", "every SessionState field except the reviewed runtime helpers has a unique msgpack key", 10)
 	r.Rule("R3-split-join-agreement", "splitter and loader number parts through splitCookieName from 0 by 1; loader prefers the unsplit cookie, joins in index order; chunks are consecutive slices", 6)
-	r.Rule("R4-stale-parts-expired", "the cookie store's Save reads the presented jar and expires every presented session cookie it did not write", 2)
+	r.Rule("R4-stale-parts-expired", "the cookie store's Save reads the presented jar, unconditionally on every successful save, and expires every presented session cookie it did not write", 5)
 	r.Rule("R5-size-bound", "split threshold <= 4096; every emitted chunk and the unsplit cookie were measured against it", 3)
 	r.Rule("R6-clear", "Clear sweeps all presented session cookies; Manager.Clear deletes the stored session (shared with C11.R2/R3)", 8)
+	r.Rule("R8-codec-streams-unbounded", "the session codec's stream plumbing uses no length-limited reader/copy and returns compressed data only after a successful Close", 5)
 	r.Rule("R7-ticket-encoding-agreement", "encodeTicket and decodeTicketID/decodeTicketSecret agree on tag, part count, order and alphabet", 3)
 
 	runC10R1(c, "R1-codec-agreement")
@@ -41,6 +42,7 @@ func runC10(c *Ctx) {
 	runC11R3R4(c, "R6-clear", "R6-clear")
 	runManagerClearRule(c, "R6-clear")
 	runC10R7(c, "R7-ticket-encoding-agreement")
+	runC10R8(c, "R8-codec-streams-unbounded")
 }
 
 // ---- R1 -------------------------------------------------------------------------------------------
@@ -533,6 +535,41 @@ func runC10R4(c *Ctx, rule string) {
 		return
 	}
 	c.R.OK(rule, key, c.P.Pos(save.Pos()), "Save reaches a reader of req.Cookies(): "+fnKey(readers[0]))
+	// (i') the sweep is unconditional: every way out of the reader passed the jar read, and every successful
+	// way out of each function between Save and the reader called the next one
+	for _, fn := range readers {
+		fn := fn
+		c.Walk(rule, fn, func(p *walk.Path) {
+			if _, ok := p.Exit.(*ssa.Return); !ok {
+				return
+			}
+			key := "sweep-unconditional|" + fnKey(fn)
+			if len(p.FindTop(walk.Static(cookiesM), p.End())) > 0 {
+				c.ok(rule, key, p.Exit, "every return passed req.Cookies()")
+			} else {
+				c.bad(rule, key, p.Exit, "the stale-cookie sweep is skipped on this path (returns before looking at the presented cookies): leftovers of an earlier save survive exactly in the situations this path selects", p, p.End())
+			}
+		})
+		for _, link := range callChain(c, save, fn, 4) {
+			g, h := link[0], link[1]
+			c.Walk(rule, g, func(p *walk.Path) {
+				if _, ok := p.Exit.(*ssa.Return); !ok {
+					return
+				}
+				if ri := errResultIndex(g.Signature); ri >= 0 {
+					if rv, ok := p.ReturnDV(ri); ok && !DefinitelyNil(p, rv, p.End()) {
+						return // failed save: nothing was written
+					}
+				}
+				key := "sweep-reached|" + fnKey(g)
+				if len(p.Find(walk.Static(h), p.End())) > 0 {
+					c.ok(rule, key, p.Exit, "every successful return called "+fnKey(h))
+				} else {
+					c.bad(rule, key, p.Exit, fnKey(g)+" succeeds on a path that never reaches the stale-cookie sweep", p, p.End())
+				}
+			})
+		}
+	}
 	// (ii) the reader expires every presented, matching, unwritten cookie
 	for _, fn := range readers {
 		fn := fn
@@ -669,9 +706,25 @@ func runC10R5(c *Ctx, rule string) {
 		}
 		over := false
 		known := false
+		// the value measured must be len(<the returned cookie>.String())
+		measuresReturned := func(a walk.Atom, x ssa.Value) bool {
+			lc, ok := p.Resolve(p.Op(x, a.DV)).V.(*ssa.Call)
+			if !ok {
+				return false
+			}
+			if bi, ok := lc.Call.Value.(*ssa.Builtin); !ok || bi.Name() != "len" {
+				return false
+			}
+			sc, ok := p.Resolve(p.Op(lc.Call.Args[0], p.Resolve(p.Op(x, a.DV)))).V.(*ssa.Call)
+			if !ok || sc.Call.StaticCallee() == nil || sc.Call.StaticCallee().String() != "(*net/http.Cookie).String" {
+				return false
+			}
+			el := varargElem(unwrap0(p.Resolve(rv).V), 0)
+			return el != nil && sc.Call.Args[0] == el
+		}
 		for _, a := range p.Atoms(p.End()) {
 			b, ok := a.DV.V.(*ssa.BinOp)
-			if !ok || a.IsNil {
+			if !ok || a.IsNil || !measuresReturned(a, b.X) {
 				continue
 			}
 			if n, ok := ConstInt(b.Y); ok && n == max && (b.Op == token.GTR || b.Op == token.GEQ) {
@@ -800,4 +853,131 @@ func runC10R7(c *Ctx, rule string) {
 	}
 	check(decID, 1, encAlphabet[0], "id")
 	check(decSecret, 2, encAlphabet[1], "secret")
+}
+
+// ---- R8 -------------------------------------------------------------------------------------------
+
+// runC10R8: the session codec's stream plumbing is unbounded in both directions: whatever the
+// compressor wrote the decompressor reads in full (no length-limited reader or copy), and the
+// compressor's Close error is examined before its buffer is taken.
+func runC10R8(c *Ctx, rule string) {
+	roots := []*ssa.Function{
+		c.Fn(rule, "pkg/apis/sessions.lz4Compress"),
+		c.Fn(rule, "pkg/apis/sessions.lz4Decompress"),
+		c.Fn(rule, "(*pkg/apis/sessions.SessionState).EncodeSessionState"),
+		c.Fn(rule, "pkg/apis/sessions.DecodeSessionState"),
+	}
+	bounded := map[string]string{
+		"io.LimitReader":           "reads at most n bytes and then reports a clean EOF",
+		"io.CopyN":                 "copies at most n bytes",
+		"io.ReadFull":              "fills a fixed-size buffer only",
+		"io.ReadAtLeast":           "fills a fixed-size buffer only",
+		"io.NewSectionReader":      "exposes a window of the data only",
+		"(*bytes.Buffer).Truncate": "drops buffered data",
+		"(*bytes.Buffer).Next":     "takes a bounded prefix",
+		"(*bytes.Reader).Seek":     "skips data",
+		"(*bytes.Buffer).Read":     "fills a fixed-size buffer only",
+		"(*bytes.Reader).Read":     "fills a fixed-size buffer only",
+	}
+	seen := map[*ssa.Function]bool{}
+	for _, root := range roots {
+		if root == nil {
+			continue
+		}
+		for fn := range c.staticReach(root, 3) {
+			if seen[fn] || prog.Short(prog.FnPkg(fn).Path()) != "pkg/apis/sessions" {
+				continue
+			}
+			seen[fn] = true
+			for _, b := range fn.Blocks {
+				for _, in := range b.Instrs {
+					switch x := in.(type) {
+					case ssa.CallInstruction:
+						cc := x.Common()
+						name := ""
+						if sc := cc.StaticCallee(); sc != nil {
+							name = sc.String()
+						} else if cc.IsInvoke() {
+							continue
+						}
+						if !strings.HasPrefix(name, "io.") && !strings.HasPrefix(name, "(*bytes.") && !strings.HasPrefix(name, "bytes.") {
+							continue
+						}
+						key := "stream-call|" + fnKey(fn) + "|" + name
+						if why, bad := bounded[name]; bad {
+							c.R.Bad(rule, key, c.pos(in), "the session codec moves its data through "+name+", which "+why+": a session larger than the bound is silently truncated on one side and cannot be loaded", nil, nil)
+						} else {
+							c.ok(rule, key, in, "unbounded stream primitive")
+						}
+					case *ssa.Alloc:
+						if pt, ok := x.Type().Underlying().(*types.Pointer); ok && strings.HasSuffix(pt.Elem().String(), "io.LimitedReader") {
+							c.R.Bad(rule, "limited-reader|"+fnKey(fn), c.pos(in), "the session codec builds an io.LimitedReader: data beyond the limit is silently dropped", nil, nil)
+						}
+					}
+				}
+			}
+		}
+	}
+	// the compressor's Close result is examined (a failed flush would leave a truncated stream)
+	if comp := roots[0]; comp != nil {
+		found := false
+		c.Walk(rule, comp, func(p *walk.Path) {
+			rv, ok := p.ReturnDV(0)
+			if !ok || DefinitelyNil(p, rv, p.End()) {
+				return
+			}
+			key := "close-checked|" + fnKey(comp)
+			okClose := false
+			for _, cl := range p.Calls() {
+				if sc := cl.C.StaticCallee(); sc != nil && sc.Name() == "Close" {
+					found = true
+					if n, k := p.ResultNil(cl.DV(), -1, p.End()); k && n {
+						okClose = true
+					}
+				}
+			}
+			if okClose {
+				c.ok(rule, key, p.Exit, "compressed bytes are returned only after the writer's Close() returned nil")
+			} else {
+				c.bad(rule, key, p.Exit, "lz4Compress returns data on a path where the compressing writer was not closed successfully: the stream may lack its final block", p, p.End())
+			}
+		})
+		if !found {
+			c.R.Unknown(rule, "close-checked|none", c.P.Pos(comp.Pos()), "the compressor never closes its writer")
+		}
+	}
+}
+
+// callChain returns the (caller, callee) links of one shortest static call chain from src to dst.
+func callChain(c *Ctx, src, dst *ssa.Function, depth int) [][2]*ssa.Function {
+	type node struct {
+		fn   *ssa.Function
+		prev *node
+	}
+	seen := map[*ssa.Function]bool{src: true}
+	queue := []*node{{src, nil}}
+	for d := 0; d <= depth && len(queue) > 0; d++ {
+		var next []*node
+		for _, n := range queue {
+			if n.fn == dst {
+				var out [][2]*ssa.Function
+				for m := n; m.prev != nil; m = m.prev {
+					out = append([][2]*ssa.Function{{m.prev.fn, m.fn}}, out...)
+				}
+				return out
+			}
+			for _, b := range n.fn.Blocks {
+				for _, in := range b.Instrs {
+					if ci, ok := in.(ssa.CallInstruction); ok {
+						if sc := ci.Common().StaticCallee(); sc != nil && c.P.InModule(sc) && !seen[sc] {
+							seen[sc] = true
+							next = append(next, &node{sc, n})
+						}
+					}
+				}
+			}
+		}
+		queue = next
+	}
+	return nil
 }
